@@ -154,6 +154,11 @@ def r3(prog, ev, rep):
     rep.rule("C11-R3", "validated parameters: every parser construction of Selector::Index / Selector::Slice fields passes the value "
              "through the I-JSON range validator", floor=4)
     sites, validators = shared.int_slot_sites(prog, ev)
+    from vflib.intervals import IJSON
+    for vp, (lo, hi) in sorted(validators.items()):
+        rep.check((lo, hi) == IJSON, "C11-R3", "validator:%s" % shared.rk(prog, ev, vp), prog.loc_of(vp), "admits exactly [-(2^53-1), 2^53-1]",
+                  "the range validator admits [%d, %d]: index / start / end / step values at the edge of the I-JSON range are %s" % (
+                      lo, hi, "rejected although valid" if (lo > IJSON[0] or hi < IJSON[1]) else "accepted although out of range"))
     for lab, p, node, cls in sites:
         if not lab.startswith("Selector::"):
             continue
@@ -702,6 +707,16 @@ def region_selfcheck(rep):
             r = "undecided: %s" % u
         res.append((name, r == expect, r))
     rep.control(RID[0], all(ok for _, ok, _ in res), "region analysis self-check: 2 equivalent rewrites proved equal, 2 deviating ones separated with a witness (%s)" % ", ".join("%s=%s" % (n, r) for n, _, r in res))
+
+
+def shared_work_rule(prog, ev, rep, rid):
+    from vflib.report import Report, Shared
+    tmp = Report("tmp")
+    h = find_handlers(prog, ev, tmp)
+    if h is None:
+        rep.unrecognised(rid, "handlers", "-", "slice/index handlers not found in the Selector dispatch")
+        return
+    r7(prog, ev, Shared(rep, {"C11-R7": rid}, lender="C11"), h[0], h[2])
 
 
 def shared_walk_rule(prog, ev, rep, rid, title):
